@@ -36,7 +36,7 @@ def rand_core_impls_text(unit):
             sig_rewrites=[(r'<R: RngCore \+ \?Sized>', '<R: Next32>')],
             ensures=[C('rc.next_u64_via_u32.value', 'C05', 'res == via_u32::<R>(old(rng).v()).0'),
                      C('rc.next_u64_via_u32.state', 'C05', 'final(rng).v() == via_u32::<R>(old(rng).v()).1')],
-            builtin_props='C14')
+            builtin_props='C14 C18')
     f2 = Fn('rand_core::impls::fill_bytes_via_next',
             sig_rewrites=[(r'<R: RngCore \+ \?Sized>', '<R: Next32 + Next64>')],
             ensures=[C('rc.fill_bytes_via_next.bytes', 'C05', 'final(dest)@ == fill_via_next::<R>(old(rng).v(), old(dest)@.len()).0'),
@@ -50,7 +50,7 @@ def rand_core_impls_text(unit):
             inserts=[after(lit('let mut left = dest;'),
                            'let ghost r0 = rng.v(); let ghost n0 = old(dest)@.len(); let ghost mut pre: Seq<u8> = Seq::empty();'),
                      after(lit('l.copy_from_slice(&chunk);'), 'proof { pre = pre + chunk@; }')],
-            builtin_props='C14')
+            builtin_props='C14 C18')
     for name, fc in (('next_u64_via_u32', f1), ('fill_bytes_via_next', f2)):
         it = cr.get(name)
         s = dialect.apply(cr.src(it, with_attrs=True), unit.log).strip()
@@ -111,7 +111,7 @@ def rand_core_impls_rel_text(unit):
                             '  assert(tail_rel::<R>(vt, final(left)@, rng.v()));\n'
                             '  assert(chain::<R>(ws, vs));\n'
                             '}')],
-            builtin_props='C14')
+            builtin_props='C14 C18')
     it = cr.get('fill_bytes_via_next')
     s = dialect.apply(cr.src(it, with_attrs=True), unit.log).strip()
     f2.path = 'rand_core::impls::fill_bytes_via_next'
